@@ -169,7 +169,7 @@ template<int DD> void history_t(Case& c) {
 			case 13: if constexpr(DD >= 1) { if(!A.a) break; opk = std::string("assign-from-other-element-type"); Model nm = fresh(e); if(nm.n() == 0) break; opk += (A.m.ext == e ? "(same-extents)" : (A.m.n() == nm.n() ? "(same-count)" : "(other-extents)")); d << opk << "(" << a << "," << estr() << ")"; cur_op = d.str(); op(opk); softcfg().opk = opk;
 				OArr O(make_extensions<D>(e)); { Other* p = O.data_elements(); for(L k2 = 0; k2 < nm.n(); ++k2) p[k2] = mko(nm.ids[std::size_t(k2)]); } *A.a = O; A.m = nm; had_assign_over_state = true; break; } break;
 			case 14: if constexpr(DD >= 1) { if(!A.a || D == 0) break; c06 = true; bool fill = g.chance(1, 2); bool rv = !fill && g.chance(1, 4); opk = rv ? "reextent(&&)" : (fill ? "reextent(x,v)" : "reextent(x)");
-				std::vector<L> const ob = (A.m.base_known && A.m.n() > 0) ? A.m.base : std::vector<L>(std::size_t(D), 0); bool zb = true; for(L x : ob) zb &= (x == 0); bool const same = (A.m.ext == e) && zb;  // the requested extensions are 0-based
+				std::vector<L> ob(std::size_t(D), 0); if(A.m.n() > 0) { if(A.m.base_known) ob = A.m.base; else { ob.clear(); std::apply([&](auto const&... x) { (ob.push_back(L(x.first())), ...); }, A.a->extensions().base()); } } bool zb = true; for(L x : ob) zb &= (x == 0); bool const same = (A.m.ext == e) && zb;  // the requested extensions are 0-based
 				char const* cls = same ? "same" : (A.m.n() == 0 ? "from-empty" : (Model{e, {}}.n() == 0 ? "to-empty" : "other")); d << opk << "(" << a << "," << join(A.m.ext, "x") << "->" << estr() << ")"; cur_op = d.str(); op(opk + ":" + cls); softcfg().opk = opk;
 				long fid = fill ? next_id++ : 0; Model nm = filled(e, fid); std::vector<char> isnew(std::size_t(nm.n()), 1);
 				if(A.m.n() > 0 && nm.n() > 0) { MV om = MV::root(A.m.ext), nn = MV::root(e); std::vector<L> ix; for(L k = 0; k < nm.n(); ++k) { nn.unlin(k, ix); bool in = true; std::vector<L> ox = ix; for(int q = 0; q < D; ++q) { ox[std::size_t(q)] -= ob[std::size_t(q)]; in &= ox[std::size_t(q)] >= 0 && ox[std::size_t(q)] < A.m.ext[std::size_t(q)]; } if(in) { ix = ox; nm.ids[std::size_t(k)] = A.m.ids[std::size_t(om.lin(ix))]; isnew[std::size_t(k)] = 0; } } }
@@ -185,11 +185,12 @@ template<int DD> void history_t(Case& c) {
 			case 15: if constexpr(DD >= 1) { if(!A.a) break; c06 = true; bool il = g.chance(1, 2); opk = il ? "assign={}" : "clear"; d << opk << "(" << a << ")"; cur_op = d.str(); op(opk); softcfg().opk = opk; if(il) *A.a = {}; else A.a->clear(); A.m = empty_model(); if(D == 0) { A.m.unspec = true; A.m.ids = {0}; } break; } break;
 			case 16: { if(!A.a || D == 0 || A.m.n() == 0) break; c06 = true; std::vector<L> ne = A.m.ext; std::size_t i = std::size_t(g.below(D)), j = std::size_t(g.below(D)); std::swap(ne[i], ne[j]); if(D >= 2 && g.chance(1, 2)) { L nn = A.m.n(); ne.assign(std::size_t(D), 1); ne[std::size_t(g.below(D))] = nn; }
 				opk = "reshape"; d << opk << "(" << a << "," << join(A.m.ext, "x") << "->" << join(ne, "x") << ")"; cur_op = d.str(); op(opk); softcfg().opk = opk; Elem const* before = A.a->data_elements(); A.a->reshape(make_extensions<D>(ne)); if(A.a->data_elements() != before) V("C06:reshape:reallocated", "reshape changed data_elements()"); A.m.ext = ne; A.m.base.assign(std::size_t(D), 0); A.m.base_known = true; break; }
-			case 17: { if(!A.a || D != 1) break; c06 = true; Model nm = fresh({g.in(1, MAXEXT + 1)});  // (an empty iterator pair makes the library evaluate *first on an end iterator — formed, never read; excluded, see DESIGN.md) opk = std::string("assign(first,last)") + (nm.ext == A.m.ext ? "(same-size)" : "(other-size)"); d << opk << "(" << a << "," << nm.ext[0] << ")"; cur_op = d.str(); op(opk); softcfg().opk = opk;
+			case 17: { if(!A.a || D != 1) break; c06 = true; Model nm = fresh({g.in(1, MAXEXT + 1)});  // (an empty iterator pair makes the library evaluate *first on an end iterator — formed, never read; excluded, see DESIGN.md)
+				opk = std::string("assign(first,last)") + (nm.ext == A.m.ext ? "(same-size)" : "(other-size)"); d << opk << "(" << a << "," << nm.ext[0] << ")"; cur_op = d.str(); op(opk); softcfg().opk = opk;
 				std::vector<Elem> src; for(long id : nm.ids) src.push_back(mk(id)); if constexpr(DD == 1) { if(g.chance(1, 2)) A.a->assign(src.begin(), src.end()); else A.a->assign(src); } A.m = nm; break; }
 			case 18: { if(!A.a || !B.a || a == b || D < 2 || B.m.n() == 0) break; c06 = true; opk = "assign(first,last)(rows)"; d << opk << "(" << a << "<-rows of " << b << ")"; cur_op = d.str(); op(opk); softcfg().opk = opk; if constexpr(DD >= 2) { A.a->assign(B.a->begin(), B.a->end()); } A.m = B.m; A.m.base_known = false; break; }
 			case 19: { if(!A.a || A.m.n() == 0) break; opk = "element-write"; L k = g.below(A.m.n()); long id = next_id++; d << opk << "(" << a << ",#" << k << ")"; cur_op = d.str(); op(opk); softcfg().opk = opk;
-				if constexpr(DD == 0) { *A.a->data_elements() = mk(id); } else { std::vector<L> ix; MV::root(A.m.ext).unlin(k, ix); if(A.m.base_known) for(std::size_t q = 0; q < ix.size(); ++q) ix[q] += A.m.base[q]; brk(*A.a, ix) = mk(id); } A.m.ids[std::size_t(k)] = id; break; }
+				if constexpr(DD == 0) { *A.a->data_elements() = mk(id); } else { std::vector<L> ix; MV::root(A.m.ext).unlin(k, ix); { std::vector<L> fs; std::apply([&](auto const&... x) { (fs.push_back(L(x.first())), ...); }, A.a->extensions().base()); for(std::size_t q = 0; q < ix.size(); ++q) ix[q] += (A.m.base_known ? A.m.base[q] : fs[q]); } brk(*A.a, ix) = mk(id); } A.m.ids[std::size_t(k)] = id; break; }
 			case 20: { if(!B.a || a == b) break; opk = "decay(+)"; d << opk << "(" << a << "<-+" << b << ")"; cur_op = d.str(); op(opk); softcfg().opk = opk; A.a.reset(); if(g.chance(1, 2)) A.a.emplace(+*B.a); else A.a.emplace(B.a->decay()); A.m = B.m; A.m.base_known = false; { auto al = A.a->get_allocator(); A.aid = al.id; A.agen = al.gen; } count("decay"); break; }
 			case 21: { if(!A.a) break; c06 = true; if(D == 0 || D > 3) break;  // nested initializer lists (compile-time shapes)
 				opk = "assign-init-list"; d << opk << "(" << a << ")"; cur_op = d.str(); op(opk); softcfg().opk = opk; long i0 = next_id; next_id += 6;
